@@ -942,7 +942,18 @@ func (m *monitor) afterStep() {
 // advancing the clock in small steps; cron is not ticked.
 func (m *monitor) drive(rounds int, step time.Duration) bool {
 	w := m.r.w
-	for i := 0; i < rounds; i++ {
+	// Work that is still progressing when the rounds are used up is given more
+	// rounds (a long Enqueue backlog of Jobs with many attempts); a system in which
+	// nothing was written for 20 rounds (longer than every deadline there is) is at
+	// a fixpoint, quiet or stuck, and is judged as it is.
+	lastActivity, lastLedger := 0, len(w.API.Ledger)
+	for i := 0; i < rounds*4; i++ {
+		if len(w.API.Ledger) != lastLedger {
+			lastActivity, lastLedger = i, len(w.API.Ledger)
+		}
+		if i >= rounds && i-lastActivity >= 20 {
+			return true
+		}
 		if !m.r.settle() {
 			return false
 		}
@@ -991,7 +1002,10 @@ func (m *monitor) drive(rounds int, step time.Duration) bool {
 			}
 		}
 	}
-	return true
+	// Out of rounds with work still in flight (e.g. a long Enqueue backlog of Jobs
+	// with many attempts): nothing can be concluded about quiescence.
+	m.label("inconclusive-drive-bound")
+	return false
 }
 
 // checkDueStarted: C07 - at a fixpoint reached by the controllers' own deferred
